@@ -122,7 +122,7 @@ func vpC02RefMaps(ver *common.VersionedTransaction, ins []*vpLUTXO) (ok bool, wh
 
 func TestVP_C02_threshold_maps(t *testing.T) {
 	c := kit.New(t, "C02", "rapid: ledgers whose outputs have 1..N keys (N=10 quick, 40 thorough) and thresholds 0..keys+1; spends of 1..4 inputs with drawn signer subsets (below/at/above threshold) as per-input maps, in half of the accepted cases the inputs are then locked under the payload hash (as the node does), then forged twins: wrong-key, swapped-layout, index-out-of-range, other-payload, sigbyte, mixed-invalid, moved-index; oracle: Validate accepts => every attached signature verifies on its own under the spent output's own key at that index and each input reaches its threshold (re-verified with Key.Verify); honest spends meeting max(1,threshold) everywhere must be accepted; every single-byte mutation of an accepted encoding (all thresholds>0) must fail; non-trivial = accepted multi-input tx or forged twin; distinct by payload hash+class")
-	c.Require("accepted-multi", "below-threshold", "th0", "th-unspendable", "wrong-key", "swapped-layout", "index-oor", "other-payload", "sigbyte", "mixed-invalid", "moved-index", "tamper-byte", "twins-judged-on-locked-inputs")
+	c.Require("accepted-multi", "below-threshold", "th0", "th-unspendable", "wrong-key", "swapped-layout", "index-oor", "other-payload", "sigbyte", "mixed-invalid", "moved-index", "alias-index-256", "tamper-byte", "twins-judged-on-locked-inputs")
 	kit.SetChecks(kit.N(60, 3000))
 	maxKeys := 10
 	if kit.Thorough() {
@@ -238,7 +238,7 @@ func TestVP_C02_threshold_maps(t *testing.T) {
 			vi := rapid.IntRange(0, len(p.ins)-1).Draw(t, "forge_input")
 			u := p.ins[vi]
 			class := ""
-			switch rapid.IntRange(0, 6).Draw(t, "forge") {
+			switch rapid.IntRange(0, 7).Draw(t, "forge") {
 			case 0: // signature by a key that is not in this output's list
 				stranger := crypto.NewKeyFromSeed(vpLSeed("stranger", l.Seq, pi))
 				sig := stranger.Sign(msg)
@@ -295,6 +295,14 @@ func TestVP_C02_threshold_maps(t *testing.T) {
 				}
 				maps[vi][uint16(free)] = sig
 				class = "moved-index"
+			case 7: // one key holder files its signature under indexes that differ by multiples of 256
+				need := len(maps[vi])
+				sig := maps[vi][0]
+				maps[vi] = map[uint16]*crypto.Signature{0: sig}
+				for j := 1; len(maps[vi]) < max(need, 2); j++ {
+					maps[vi][uint16(256*j)] = sig
+				}
+				class = "alias-index-256"
 			}
 			signed.SignaturesMap = maps
 			fv := signed.AsVersioned()
